@@ -690,4 +690,16 @@ example :
   rw [h1]
   exact ⟨by simp [IMap.Nodup], by simp [IMap.Nodup]⟩
 
+/-- `failed_tx_without_force_writes_changes_nothing`: database-level statement of the revert clause
+when nothing was force-written and no partition was deleted: committing the state updates of the
+reverted track leaves every substate of the base database as it was. -/
+theorem failed_tx_without_force_writes_changes_nothing (t : Track) (hf : t.force = [])
+    (hd : t.deleted = []) :
+    ∃ t', revert t = some t' ∧
+      ∀ n p k, (t'.db.commit (toStateUpdates t').2).get (n, p) k = t.db.get (n, p) k := by
+  obtain ⟨t', hr, _, hdb, _, hsu⟩ := revert_no_force_whole_track t hf
+  refine ⟨t', hr, fun n p k => ?_⟩
+  rw [hsu, hd, hdb]
+  rfl
+
 end Radix.Track
